@@ -1540,6 +1540,7 @@ class Message(ABC):
                     if (
                         value != DATETIME_ZERO
                         or include_default_values
+                        or meta.optional
                         or self._include_default_value_for_oneof(
                             field_name=field_name, meta=meta
                         )
@@ -1549,6 +1550,7 @@ class Message(ABC):
                     if (
                         value != timedelta(0)
                         or include_default_values
+                        or meta.optional
                         or self._include_default_value_for_oneof(
                             field_name=field_name, meta=meta
                         )
@@ -1576,6 +1578,7 @@ class Message(ABC):
                 elif (
                     value._serialized_on_wire
                     or include_default_values
+                    or meta.optional
                     or self._include_default_value_for_oneof(
                         field_name=field_name, meta=meta
                     )
@@ -1848,6 +1851,7 @@ class Message(ABC):
                     if (
                         value != DATETIME_ZERO
                         or include_default_values
+                        or meta.optional
                         or self._include_default_value_for_oneof(
                             field_name=field_name, meta=meta
                         )
@@ -1857,6 +1861,7 @@ class Message(ABC):
                     if (
                         value != timedelta(0)
                         or include_default_values
+                        or meta.optional
                         or self._include_default_value_for_oneof(
                             field_name=field_name, meta=meta
                         )
@@ -1876,6 +1881,7 @@ class Message(ABC):
                 elif (
                     value._serialized_on_wire
                     or include_default_values
+                    or meta.optional
                     or self._include_default_value_for_oneof(
                         field_name=field_name, meta=meta
                     )
